@@ -1,4 +1,5 @@
 mod checks;
+mod dg;
 mod drv;
 mod fw;
 mod gram;
